@@ -12,10 +12,20 @@
      - `consumed` itself is a prefix of some sentence: the reported index is not too early
        (C03_all_reject_exact; LR/Viable.v: every item of a state is reached from the state's
        kernel by finitely many closure steps, so what is on the stack can always be completed).
-   For grammars with unproductive nonterminals the property asks for the index at which a canonical
-   LR(1) parser of the grammar stops; that agreement is NOT proved (the check decides it per input
-   with a brute-force canonical LR(1) parser), and C03_productivity_hypothesis_is_necessary shows
-   that the sentence-prefix reading cannot hold there. *)
+   AND for every accepted grammar, unproductive nonterminals included (the second clause of the
+   property's quantifier): the rejection is at the position at which the canonical LR(1) parser of
+   the grammar stops (C03_all_reject_where_the_canonical_LR1_parser_stops; LR/CanonAgree.v).  The
+   canonical parser is defined from the canonical collection I(g) by viable prefix (LR/CanonLR1.v):
+   shift t when an item of I(g) has t after the dot, reduce A -> alpha when [A -> alpha ., a] is in
+   I(g) for the lookahead a, accept on [S' -> S ., $] at the end.  Proved: it consumes the same tokens
+   as the emitted parser (every driver move made while the canonical parser can move IS the canonical
+   move; reductions the driver makes beyond that are "pending" and are replayed by the canonical
+   parser whenever the driver shifts again), and from there it can neither shift the reported token
+   nor accept, whatever reductions it still makes (a chain of driver reductions ending in a shift of t
+   would put t into FIRST(beta a) of a kernel item of I(delta A), hence [A -> alpha ., t] into
+   I(delta alpha)).  C03_productivity_hypothesis_is_necessary shows that the sentence-prefix reading
+   cannot hold for such grammars.  The check still compares every sampled input with a brute-force
+   canonical LR(1) parser. *)
 From Coq Require Import List Arith.
 From Kiki Require Import Base.Ord Base.Chars Data LR.Driver LR.Grammar LR.Inv LR.Complete LR.ErrPos
   LR.Validate LR.ValidateProofs.
@@ -53,7 +63,7 @@ Proof. intros P kind T f. exact (run_rest_suffix kind T f). Qed.
    it emitted (Emit/Parser.v ptable_of: rows = chunks of the flat arrays, rule i = reduce
    function i, terminal/nonterminal i = i-th declaration).  No validator run, no hint: the
    invariants are proved of the construction itself (Build/GenCorrect.v, PipelineProofs.v). *)
-From Kiki Require Import Emit.Parser Pipeline PipelineProofs.
+From Kiki Require Import LR.CanonLR1 LR.CanonAgree Emit.Parser Pipeline PipelineProofs.
 
 Section C03_all_grammars.
   Context {P : Type} (kind : P -> nat).
@@ -82,6 +92,15 @@ Section C03_all_grammars.
         (forall x r z, rest = x :: r -> ~ sentence kind pt (consumed ++ x :: z)) /\
         (exists z, sentence kind pt (consumed ++ z)).
   Proof. exact (emitted_parser_reject_exact kind ho digest src out text pt Hho Hgen Hpt). Qed.
+  Theorem C03_all_reject_where_the_canonical_LR1_parser_stops : exists ft,
+    forall fuel w tok,
+      Forall (fun p => kind p < pt_nterm pt) w ->
+      parse kind pt fuel w = OReject tok ->
+      exists consumed rest,
+        w = consumed ++ rest /\ tok = hd_error rest /\
+        (exists g, csteps kind pt ft ([], w) (g, rest)) /\
+        (forall g, csteps kind pt ft ([], w) (g, rest) -> ~ can_consume kind pt ft g rest).
+  Proof. exact (emitted_parser_rejects_where_canonical_stops kind ho digest src out text pt Hho Hgen Hpt). Qed.
 End C03_all_grammars.
 
 (* ---------- the hypotheses of the all-grammar theorems are met by a concrete source ---------- *)
@@ -190,3 +209,4 @@ Print Assumptions C03_reject_position.
 Print Assumptions C03_returns_the_unconsumed_head.
 Print Assumptions C03_all_reject_position.
 Print Assumptions C03_all_reject_exact.
+Print Assumptions C03_all_reject_where_the_canonical_LR1_parser_stops.
